@@ -460,37 +460,40 @@ def topExpr (g : Grammar) : Expr :=
   | [(_, _, e)] => e
   | calls => .alt (ExprL.ofList (calls.map (·.2.2))) ((calls.head?.map (·.2.2.span)).getD default)
 
+/-- one step of the specialisation of the definition bodies (the loop over `nonterminal_definitions`) -/
+def specStep (sh : Shell) (fbs : AList String) (defined : List String)
+    (acc : AList (Span × Expr) × Book) (x : String × Span × Expr) : AList (Span × Expr) × Book :=
+  ((acc.1 ++ [(x.1, (x.2.1, (specialize sh fbs defined x.2.2 acc.2).1))]), (specialize sh fbs defined x.2.2 acc.2).2)
+
+/-- one step of the dependency-ordered expansion of the definitions -/
+def resStep (acc : AList (Span × Expr) × AList Span) (n : String) : AList (Span × Expr) × AList Span :=
+  match AList.get? acc.1 n with
+  | none => acc
+  | some (s, e) =>
+    ((acc.1.map fun p => if p.1 == n then (n, (s, (resolve acc.1 e acc.2).1)) else p), (resolve acc.1 e acc.2).2)
+
 /-- everything after the definitions and specialisations have been collected: specialisation,
 dependency-ordered expansion, the spaces check, collapsing of words, `||` levels, warnings -/
 def finishValidate (g : Grammar) (sh : Shell) (command : String) (defs0 : AList (Span × Expr))
     (specs : AList UserSpec) (fbs : AList String) : Outcome Valid :=
-  let defs := defs0.map fun (n, s, e) => (n, s, distribute e)
-  let expr := distribute (topExpr g)
-  let book : Book := ⟨specs, defs.map fun (n, s, _) => (n, s)⟩
-  let defined := defs.map (·.1)
-  let (defs, book) := defs.foldl (init := (([] : AList (Span × Expr)), book)) fun (acc, b) (n, s, e) =>
-    let (e', b) := specialize sh fbs defined e b
-    (acc ++ [(n, (s, e'))], b)
-  let (expr, book) := specialize sh fbs defined expr book
-  let unusedSpecs := book.specs.filterMap fun (n, sp) => if sp.used then none else some (n, sp.span)
-  match resolutionOrder defs with
+  let defsD := defs0.map fun x => (x.1, x.2.1, distribute x.2.2)
+  let expr0 := distribute (topExpr g)
+  let book0 : Book := ⟨specs, defsD.map fun x => (x.1, x.2.1)⟩
+  let defined := defsD.map (·.1)
+  let r1 := defsD.foldl (specStep sh fbs defined) ([], book0)
+  let r2 := specialize sh fbs defined expr0 r1.2
+  let unusedSpecs := r2.2.specs.filterMap fun (n, sp) => if sp.used then none else some (n, sp.span)
+  match resolutionOrder r1.1 with
   | .error spans => .err .nonterminalDefinitionsCycle spans
   | .ok order =>
-  let (defs, unused) := order.foldl (init := (defs, book.unused))
-    fun (acc : AList (Span × Expr) × AList Span) n =>
-      match AList.get? acc.1 n with
-      | none => acc
-      | some (s, e) =>
-        let (e', u) := resolve acc.1 e acc.2
-        (acc.1.map (fun p => if p.1 == n then (n, (s, e')) else p), u)
-  match spaces defs stackFuel expr [] false with
+  let r3 := order.foldl resStep (r1.1, r2.2.unused)
+  match spaces r3.1 stackFuel r2.1 [] false with
   | .overflow => .crash "check_subword_spaces: unbounded recursion through cyclic definitions"
   | .bad l r trace => .err .subwordSpaces (l :: r :: trace)
   | .fine =>
-  let (expr, unused) := resolve defs expr unused
-  let expr := collapse expr
-  let expr := propagate expr 0
-  .ok { command, expr, undefined := refs expr, unused, unusedSpecs }
+  let r4 := resolve r3.1 r2.1 r3.2
+  let expr := propagate (collapse r4.1) 0
+  .ok { command, expr, undefined := refs expr, unused := r4.2, unusedSpecs }
 
 /-- `ValidGrammar::from_grammar`, in the order the code runs its checks -/
 def validate (g : Grammar) (sh : Shell) : Outcome Valid :=
